@@ -20,7 +20,7 @@ for f in sorted(glob.glob('/verif/seeded/*/meta.json')):
     if d.get('in_scope') is False:
         verdict = 'quiet (correct: out of scope)'
     if d.get('in_scope') == 'other-checks':
-        verdict = 'not by its own check; caught by C14 and C09 checks'
+        verdict = 'not by its own check; caught by the C14 check (C07-f-3: and by the C09 check)'
     if d.get('in_scope') == 'unreachable':
         verdict = 'MISSED (out of reach by construction)'
     if d.get('assessment'):
